@@ -5,9 +5,14 @@ import (
 	"context"
 	"fmt"
 	"net"
+	"strconv"
 	"strings"
+	"sync"
+	"sync/atomic"
+	"time"
 
 	"github.com/nextdns/nextdns/config"
+	"github.com/nextdns/nextdns/proxy"
 	"github.com/nextdns/nextdns/resolver"
 	"github.com/nextdns/nextdns/resolver/query"
 )
@@ -147,6 +152,9 @@ func runProf(src, dst net.IP, mac net.HardwareAddr, entries []string, seq [][3]s
 		}
 	}
 	if seq != nil {
+		if profWire {
+			return runPwire(ps, seq)
+		}
 		return runPseq(ps, seq)
 	}
 	var list []string
@@ -229,6 +237,126 @@ func runPseq(ps config.Profiles, seq [][3]string) string {
 	return "seq=" + joinOrDash(outs)
 }
 
+
+// profWire: the sequence being run is a `pwire` one (set by the area's line runner; the area is single-threaded)
+var profWire bool
+
+// pwire <src/dst/->,… <entry>*  ->  seq=<profile>,…
+// The client tuples are realised on REAL sockets: one proxy.Proxy listening on the IPv4 wildcard address, every client
+// bound to its own loopback source address sending to its own loopback destination address, all queries in flight at
+// the same time (the upstream holds each until every packet has been read). The upstream evaluates the profile the way
+// run.go's resolver does - Profiles.Get(q.PeerIP, q.LocalIP, q.MAC), or the static shortcut - when it is released:
+// whatever the receive loop keeps between packets must not change the tuple of a query already handed to a handler.
+type pwireUp struct {
+	get     func(q query.Query) string
+	n       int32
+	arrived int32
+	gate    chan struct{}
+	mu      sync.Mutex
+	got     map[uint16]string
+}
+
+func (u *pwireUp) Resolve(ctx context.Context, q query.Query, buf []byte) (int, resolver.ResolveInfo, error) {
+	if q.ID == 0xabcd {
+		return synthResp(q.ID, 40, 1, buf), resolver.ResolveInfo{}, nil // readiness probe
+	}
+	if atomic.AddInt32(&u.arrived, 1) == u.n {
+		close(u.gate)
+	}
+	select {
+	case <-u.gate:
+	case <-time.After(1500 * time.Millisecond):
+	}
+	time.Sleep(20 * time.Millisecond)
+	prof := u.get(q)
+	u.mu.Lock()
+	u.got[q.ID] = prof
+	u.mu.Unlock()
+	return synthResp(q.ID, 40, 1, buf), resolver.ResolveInfo{Profile: prof}, nil
+}
+
+func runPwire(ps config.Profiles, seq [][3]string) string {
+	up := &pwireUp{n: int32(len(seq)), gate: make(chan struct{}), got: map[uint16]string{}}
+	if len(ps) == 0 || (len(ps) == 1 && ps.Get(nil, nil, nil) != "") {
+		profile := ps.Get(nil, nil, nil)
+		up.get = func(q query.Query) string { return profile }
+	} else {
+		up.get = func(q query.Query) string { return ps.Get(q.PeerIP, q.LocalIP, q.MAC) }
+	}
+	port := freePort()
+	addr := "0.0.0.0:" + strconv.Itoa(port)
+	ctx, cancel := context.WithCancel(context.Background())
+	done := make(chan error, 1)
+	px := proxy.Proxy{Addrs: []string{addr}, Upstream: up, Timeout: 3 * time.Second, MaxInflightRequests: 64}
+	go func() { done <- px.ListenAndServe(ctx) }()
+	defer func() {
+		cancel()
+		select {
+		case <-done:
+		case <-time.After(3 * time.Second):
+		}
+	}()
+	probe := []byte{0xab, 0xcd, 1, 0, 0, 1, 0, 0, 0, 0, 0, 0, 1, 'p', 0, 0, 1, 0, 1}
+	ready := false
+	for dl := time.Now().Add(5 * time.Second); time.Now().Before(dl); {
+		if r, err := udpExchange("127.0.0.1:"+strconv.Itoa(port), probe, 200*time.Millisecond); err == nil && len(r) >= 12 {
+			ready = true
+			break
+		}
+	}
+	if !ready {
+		return "err proxy did not come up"
+	}
+	outs := make([]string, len(seq))
+	var wg sync.WaitGroup
+	for i, t := range seq {
+		src, dst := optIP(t[0]), optIP(t[1])
+		if src.To4() == nil || dst.To4() == nil || !src.IsLoopback() || !dst.IsLoopback() {
+			return "bad-case"
+		}
+		conn, err := net.ListenUDP("udp4", &net.UDPAddr{IP: src})
+		if err != nil {
+			return "err bind " + err.Error()
+		}
+		id := uint16(i + 1)
+		body := append(wireName(fmt.Sprintf("n%d", i%3), "example", "com"), 0, 1, 0, 1)
+		pl := append(be16(int(id)), 1, 0, 0, 1, 0, 0, 0, 0, 0, 0)
+		pl = append(pl, body...)
+		if _, err := conn.WriteToUDP(pl, &net.UDPAddr{IP: dst, Port: port}); err != nil {
+			conn.Close()
+			return "err send " + err.Error()
+		}
+		wg.Add(1)
+		go func(i int, conn *net.UDPConn) {
+			defer wg.Done()
+			defer conn.Close()
+			_ = conn.SetReadDeadline(time.Now().Add(4 * time.Second))
+			b := make([]byte, 600)
+			n, _, err := conn.ReadFromUDP(b)
+			if err != nil || n < 12 || b[0] != byte(id>>8) || b[1] != byte(id) {
+				outs[i] = "TIMEOUT"
+				return
+			}
+			outs[i] = "ok"
+		}(i, conn)
+		time.Sleep(8 * time.Millisecond) // the packets are read in this order
+	}
+	wg.Wait()
+	up.mu.Lock()
+	defer up.mu.Unlock()
+	for i := range seq {
+		if outs[i] != "ok" {
+			return fmt.Sprintf("err %d:%s", i, outs[i])
+		}
+		p, ok := up.got[uint16(i+1)]
+		if !ok {
+			return fmt.Sprintf("err %d:not-resolved", i)
+		}
+		outs[i] = hx([]byte(p))
+	}
+	return "seq=" + joinOrDash(outs)
+}
+
 // adaptProfLine makes a stored case independent of the machine it was recorded on: the addresses
 // of an interface entry (`lo=…`) are whatever the local interface has.  When the real parser gives
 // other addresses than the line lists, the `dests` field (and `final`, unless it was an overwrite) is
@@ -237,7 +365,7 @@ func runPseq(ps config.Profiles, seq [][3]string) string {
 func adaptProfLine(c *Ctx, l string) string {
 	f := strings.Split(l, " ")
 	first := 4
-	if len(f) >= 2 && f[0] == "pseq" {
+	if len(f) >= 2 && (f[0] == "pseq" || f[0] == "pwire") {
 		first = 2
 	} else if len(f) < 4 || f[0] != "prof" {
 		return l
@@ -368,7 +496,9 @@ func init() {
 	areas["prof"] = func(c *Ctx) error {
 		runLine := func(l string) string {
 			f := strings.Split(l, " ")
-			if len(f) >= 2 && f[0] == "pseq" {
+			if len(f) >= 2 && (f[0] == "pseq" || f[0] == "pwire") {
+				profWire = f[0] == "pwire"
+				defer func() { profWire = false }()
 				var seq [][3]string
 				for _, t := range strings.Split(f[1], ",") {
 					g := strings.Split(t, "/")
@@ -408,6 +538,12 @@ func init() {
 			return nil
 		}
 		r := NewRng(c.seed)
+		// cases on real sockets cost ~0.2 s each: a fixed budget per shard
+		pwireBudget := 30
+		if c.tier == "thorough" {
+			pwireBudget = 150
+		}
+		pwireLeft := pwireBudget
 		for i := 0; i < c.n; i++ {
 			n := r.Intn(7)
 			if r.Chance(5) {
@@ -461,6 +597,38 @@ func init() {
 				c.Stat("mac:short")
 			default:
 				c.Stat("mac:absent")
+			}
+			if pwireLeft > 0 && r.Intn(c.n) < 4*pwireBudget {
+				pwireLeft--
+				// the tuples on real sockets, all in flight together (see runPwire)
+				k := 2 + r.Intn(4)
+				var ts []string
+				for j := 0; j < k; j++ {
+					ts = append(ts, hx(net.IPv4(127, 0, 1, byte(1+r.Intn(4))).To4())+"/"+hx(net.IPv4(127, 0, 0, byte(1+r.Intn(3))).To4())+"/-")
+				}
+				var wes []profEntry
+				for _, raw := range []string{"lo=p3", "127.0.1.2/32=p1", "127.0.1.0/30=p2", "127.0.0.0/8=abc123", "x", "127.0.1.3/32=P1"} {
+					if r.Chance(55) {
+						if e, ok := r.genProfEntryRaw(c, raw); ok {
+							if raw == "lo=p3" && r.Chance(40) {
+								e.final = destsTok([]net.IP{net.IPv4(127, 0, 0, 2).To4()})
+							}
+							wes = append(wes, e)
+						}
+					}
+				}
+				for a := len(wes) - 1; a > 0; a-- {
+					b := r.Intn(a + 1)
+					wes[a], wes[b] = wes[b], wes[a]
+				}
+				var sb strings.Builder
+				fmt.Fprintf(&sb, "pwire %s", strings.Join(ts, ","))
+				for _, e := range wes {
+					fmt.Fprintf(&sb, " %s;%s;%s;%s", hx([]byte(e.raw)), e.fields, e.dests, e.final)
+				}
+				c.Stat("op:pwire")
+				runLine(sb.String())
+				continue
 			}
 			if r.Chance(15) {
 				// a sequence of queries on one resolver: the same client on several destination
